@@ -38,7 +38,7 @@ PROPS = {
         level_text="Seeded search over simulated histories (submissions, rounds, every fault placement applied/not applied, crashes, restarts, clock stall/back/jump) of the real sequencer; every lock-store commit and every effective checkpoint upload is recorded, verified independently and checked for size/time monotonicity, lock-before-publish, and MTH-prefix against leaves read back from storage with an independent decoder. Exploration is the right level: the property quantifies over unbounded histories and fault sequences.",
         expect_probes=["effect.publish", "effect.lock.replace", "prefix.checked", "reload.ok", "fault.clock", "crash.inflight"]),
     "C02": dict(SEQ,
-        level_text="Every acknowledgement is checked at the scheduler step it is delivered against the durable object map: published checkpoint covers the index, stored leaf equals the submitted entry with the acknowledged timestamp; re-checked after every crash/reload and at the end; HTTP acknowledgements additionally get their SCT verified with ct-go over an independently built leaf.",
+        level_text="Every acknowledgement is checked at the scheduler step it is delivered against the durable object map: published checkpoint covers the index, stored leaf equals the submitted entry with the acknowledged timestamp; re-checked after every crash/reload and at the end; HTTP acknowledgements additionally get their SCT verified with ct-go over an independently built leaf. An operation released after its caller's deadline passed on the fake clock returns the context error (stalls are biased to the 1 s strict-timeout operations).",
         expect_probes=["effect.publish", "crash.inflight"]),
     "C03": dict(SEQ,
         level_text="Crashes are injected at every scheduler step kind (between any two storage/lock operations, with an arbitrary subset of in-flight mutating operations applied), including during LoadLog's own recovery; after faults stop the log must reload, hold every committed tile, keep every acknowledged entry and sequence a fresh entry; staging discards are checked against the published checkpoint at the instant they take effect.",
@@ -53,16 +53,16 @@ PROPS.update({
         level_text="Two or three real Log instances with the same key on one simulated lock store and storage, started at arbitrary steps (also while another instance is between its CAS and its uploads, so that recovery runs concurrently), interleaved at storage/lock-operation granularity with slow-node faults; oracle: no fork and append-only history over the union of all checkpoints, a CAS loser stops with the fatal error, acknowledges nothing from that round and commits nothing afterwards; at the end of every run eleven start-up states built from the final durable state (lock behind storage, same size/different root, foreign name/key, missing checkpoint, lock ahead without staging, checkpoint from the future, CreateLog over an existing log) must be refused while the unmodified twin loads.",
         expect_probes=["cas.lost", "probe.twin", "probe.lock-behind-storage", "fault.slow"]),
     "C07": dict(SEQ,
-        level_text="Duplicate submissions (same item resubmitted, client retries of failed submissions) in every phase of a round, with cache faults between incarnations (deleted, rolled back to a snapshot, converted to the legacy 128-bit table, rebuilt by the built cmd/recompute-cache binary from a materialised copy of the simulated storage, the log key being derived from a seed file the way cmd/sunlight does); oracle: within a cache epoch all acknowledgements of an entry carry one (index, timestamp); an entry that is pending or acknowledged in the epoch is never admitted again; leaves per entry <= admissions minus evictions; every acknowledgement from any cache source satisfies the C02 storage oracle.",
+        level_text="Duplicate submissions (same item resubmitted, client retries of failed submissions) in every phase of a round, with cache faults between incarnations (deleted, rolled back to a snapshot, converted to the legacy 128-bit table, rebuilt by the built cmd/recompute-cache binary from a materialised copy of the simulated storage, the log key being derived from a seed file the way cmd/sunlight does); oracle: within a cache epoch all acknowledgements of an entry carry one (index, timestamp); an entry that is pending or acknowledged in the epoch is never admitted again; leaves per entry <= admissions minus evictions; every acknowledgement from any cache source satisfies the C02 storage oracle; after the recompute-cache binary rebuilt the cache, resubmissions of entries it read (prefill entries included) are answered with an occurrence it read.",
         expect_probes=["fault.cache.delete", "fault.cache.rollback", "fault.cache.legacy", "fault.cache.recompute"]),
     "C08": dict(SEQ,
         level_text="After a simulated prefix, objects are deleted, truncated, bit-flipped, extended, swapped, rolled back or (data tiles, also inside staging bundles) re-encoded well-formed with one leaf changed (biased towards the newest data tile, the right-edge tiles, checkpoint and staging bundles that recovery reads), combined with crashes, restarts and further sequencing; oracle: every checkpoint committed to the lock store afterwards has root MTH(pre-tamper leaves ++ entries sunlight itself staged afterwards), those entries are submitted ones with the right indexes, and every acknowledgement names such an index. Refusing to load or stopping is accepted.",
         expect_probes=["fault.tamper.flip", "fault.tamper.delete", "fault.tamper.recode", "tamper.commit.checked", "tamper.refused"]),
     "C11": dict(SEQ,
-        level_text="Signing half: every checkpoint committed in the simulated histories (all sizes, roots and timestamps they reach) must open with the public verifier, carry the ML-DSA cosignature, embed the round's clock reading and verify with ct-go's independent verifier over the rebuilt tree head; equal tree heads give equal signature bytes. Strictness half: each committed checkpoint is corrupted by 14 structure-aware mutators and whenever sunlight's note verifier accepts, the independent verifier must accept the same (origin,size,root,timestamp). The strictness half is a function of bytes: simulation only supplies the inputs; stated here as exploration over inputs.",
+        level_text="Signing half: every checkpoint committed in the simulated histories (all sizes, roots and timestamps they reach) must open with the public verifier, carry the ML-DSA cosignature, embed the round's clock reading and verify with ct-go's independent verifier over the rebuilt tree head; equal tree heads give equal signature bytes. Strictness half: each committed checkpoint is corrupted by 14 structure-aware mutators and whenever sunlight's note verifier accepts, the independent verifier must accept the same (origin,size,root,timestamp). Every committed tree head is signed a second time (equal RFC 6962 signature bytes required) and one injected-signer object is asked to sign texts its signature does not cover (whatever it signs must open with the public verifier). The strictness half is a function of bytes: simulation only supplies the inputs; stated here as exploration over inputs.",
         expect_probes=["c11.mutation.timestamp", "c11.mutation.blob-trailing-byte"]),
     "C17": dict(SEQ,
-        level_text="Arrival orders of high/low-priority/duplicate submissions against pool sizes 1..12 with ticks, failing rounds, stops and the read-only date crossed on the fake clock; the eviction victim is chosen by the scheduler (the low-priority map is narrowed to one candidate for the step). Oracle: occupancy never above the limit, rate-limit and eviction rules per admission, exactly one eviction per high-priority admission at a full pool, exactly one outcome per submitter, nobody left waiting after a stop, nothing acknowledged or signed after a stop, progress within a bounded number of steps once faults stop.",
+        level_text="Arrival orders of high/low-priority/duplicate submissions against pool sizes 1..12 with ticks, failing rounds, stops and the read-only date crossed on the fake clock; the eviction victim is chosen by the scheduler (the low-priority map is narrowed to one candidate for the step). Oracle: occupancy never above the limit, rate-limit and eviction rules per admission, exactly one eviction per high-priority admission at a full pool, exactly one outcome per submitter, nobody left waiting after a stop, nothing acknowledged or signed after a stop, progress within a bounded number of steps once faults stop. Each run ends with an unnarrowed eviction burst (k>=2 low-priority entries in a full pool, one high-priority arrival) judged by counts only: exactly one eviction, k-1 low-priority entries left, everybody else sequenced.",
         expect_probes=["evict.admission", "evict.narrowed", "stop", "sunset.stopped"]),
 })
 
@@ -110,7 +110,7 @@ PROPS["C15"] = dict(WIT,
     level_text="Interleaved add-checkpoint and add-entries requests (request bodies park between entry packages, tile uploads park at the storage seam, so uploads race each other and checkpoint updates), arbitrary ranges, unaligned starts, truncated bodies, wrong entries/proofs, stale and forged tickets, gzip bodies, faults and restarts; at every effective write of the mirror checkpoint and every 200 answer the mirror storage must serve the complete signed tree (every full tile, right-edge partial or its full extension, entries equal to the log's, root equal), size never above the pending checkpoint, never decreasing; after a final restart an upload from the mirror size must be accepted.",
     expect_probes=["resp.addentries.200", "resp.addentries.409", "servable.checked", "resume.ok", "concurrent.requests", "fault.body.cut", "script.cut-tile", "script.cut-tile.retry"])
 PROPS["C16"] = dict(WIT,
-    level_text="sign-subtree requests over checkpoints that were really cosigned in the simulated histories (witness only, mirror only, both) and over none/foreign/forged/corrupted ones, all range shapes and correct/incorrect hashes and proofs; oracle: signatures are returned only for a valid subtree within the size whose hash is the reference subtree hash, exactly by those own ML-DSA keys whose cosignature on the presented checkpoint verifies, and each returned line verifies with the public subtree verifier. The handler is stateless: the simulation contributes the supply of genuinely cosigned checkpoints; stated as exploration over inputs.",
+    level_text="sign-subtree requests over checkpoints that were really cosigned in the simulated histories (witness only, mirror only, both) and over none/foreign/forged/corrupted ones, all range shapes (also from 0 to far beyond the size) and correct/incorrect hashes and proofs (also the checkpoint root offered for a part of the tree without a proof); oracle: signatures are returned only for a valid subtree within the size whose hash is the reference subtree hash, exactly by those own ML-DSA keys whose cosignature on the presented checkpoint verifies, and each returned line verifies with the public subtree verifier. The handler is stateless: the simulation contributes the supply of genuinely cosigned checkpoints; stated as exploration over inputs.",
     expect_probes=["resp.subtree.200", "subtree.signed", "resp.subtree.422", "resp.subtree.403"])
 ENGINES.append({"name": "wit", "path": "overlay/verifsim/wit", "serves_properties": ["C14", "C15", "C16"],
     "kind_free_text": "real witness/mirror handlers over simulated lock and object stores; adversarial request generator over forked ground-truth logs"})
@@ -130,7 +130,7 @@ ENGINES.append({"name": "client", "path": "overlay/verifsim/client", "serves_pro
 PROPS["C18"] = {
     "engine": "gc", "quick_budget": 45, "thorough_budget": 600,
     "level_note": "Trusted: the reference tile layout (required tiles of a tree of size n), os directory walking. Real: cleanDir, overrideImmutable, logSize, mirroredLogSize called in-package in the order main() uses, and the built partial-aftersun binary on a quarter of the runs; the log directories are written by the real sequencer over the real LocalBackend (seeded histories of rounds that leave partials behind, optionally a round that dies after its lock commit and tile uploads), mirror directories by the reference model. The immutable inode flag is not in effect on the scratch file system (tmpfs).",
-    "level_text": "The property has no schedule or clock in it; what varies is the directory. Directories come from seeded histories of real sequencing rounds around every tile-level boundary (1..1025, and 65535..65795 in a fraction of runs), with the lock store ahead of storage, leftovers of crashed durable writes, unknown files, full tiles lost or replaced by directories, files named like partial directories; oracle: every removed path is a partial tile (or its emptied directory) whose full tile exists, is a non-empty regular file and lies strictly left of the right edge of the published size, nothing else changed or appeared, the trees at the published and at the lock checkpoint are still complete, and LoadLog plus a sequencing round succeed on the cleaned directory. Exploration over generated directory histories, stated as such.",
+    "level_text": "The property has no schedule or clock in it; what varies is the directory. Directories come from seeded histories of real sequencing rounds around every tile-level boundary (1..1025, and 65535..65795 in a fraction of runs), with the lock store ahead of storage, leftovers of crashed durable writes, unknown files, full tiles lost or replaced by directories, files named like partial directories; oracle: every removed path is a partial tile (or its emptied directory) whose full tile exists, is a non-empty regular file and lies strictly left of the right edge of the published size, nothing else changed or appeared, the trees at the published and at the lock checkpoint are still complete, and LoadLog plus a sequencing round succeed on the cleaned directory; with a published checkpoint that does not verify under the log key (size line altered, or signed by another key) nothing may be removed. Exploration over generated directory histories, stated as such.",
     "expect_probes": ["removed.files", "tool.binary", "tool.inpackage", "reload.ok", "junk.empty-full", "junk.tempfile", "tool.error"],
     "real": ["cmd/partial-aftersun: cleanDir, overrideImmutable, logSize, mirroredLogSize (in-package) and the built binary", "internal/ctlog sequencer and LocalBackend (to produce the directories and to reload them)"],
     "stubbed": ["lock store: in-memory map", "mirror directories: rendered by the reference model instead of a running witness"],
@@ -153,7 +153,7 @@ PROPS["C19"] = {
 PROPS["C20"] = {
     "engine": "read", "quick_budget": 50, "thorough_budget": 600,
     "level_note": "Trusted: the health predicate the harness derives by construction (each case breaks known conditions). Real: checkLog and witnessHealth run in-package inside a synctest bubble, so the 5 s freshness bound and the read-only date (limit + 1 week + 3 s) are crossed on the fake clock, on directories written by the real sequencer and witness at simulated instants; /health aggregation (staging, naming the log) through the built binary on a sixth of the runs, with read-only logs as the healthy ones so that the verdict does not depend on wall-clock freshness.",
-    "level_text": "Log states: healthy, stale by 5.1 s / much more, exactly 4.9 s and 5.0 s old, re-signed by another key, renamed origin, truncated or missing checkpoint, missing/garbage metadata, bad key, extension line; past the read-only date with matching final tree, mismatching root/size/timestamp, no final tree, and exactly at the grace boundary. Witness/mirror states: checkpoint under the wrong hash directory, unknown or empty verifier keys, mirror ahead of the pending checkpoint, right-edge tile missing or corrupt, pending checkpoint missing, mirror metadata missing. Oracle: green iff the constructed state satisfies every condition; a red /health names the broken log and ignores staging entries.",
+    "level_text": "Log states: healthy, stale by 5.1 s / much more, exactly 4.9 s and 5.0 s old, re-signed by another key, renamed origin, truncated or missing checkpoint, missing/garbage metadata, bad key, extension line; past the read-only date with matching final tree, mismatching root/size/timestamp, no final tree, and exactly at the grace boundary. Witness/mirror states: checkpoint under the wrong hash directory, unknown or empty verifier keys, mirror ahead of the pending checkpoint, right-edge tile missing or corrupt, pending checkpoint missing, mirror metadata missing. Oracle: green iff the constructed state satisfies every condition; a red /health names the broken log and ignores staging entries. In binary mode the state is changed under one running server (witness key rotated, mirror metadata removed, a log checkpoint replaced, restored) with a /health request after every change.",
     "expect_probes": ["case.stale-5.1", "case.fresh-5.0", "case.sunset-ok", "case.sunset-boundary", "wcase.mirror-ahead", "wcase.edge-corrupt", "health.aggregate.ok"],
     "real": READ_REAL, "stubbed": ["clock: testing/synctest (in-package part)", "lock store for the generated logs: in-memory map"],
     "assumptions": ["sampling: a clean batch is evidence, not proof"],
